@@ -7,6 +7,7 @@ package main
 // consumer racing with writers, truncation triggered on a short DAG by an inflated weight.
 
 import (
+	"sync"
 	"context"
 	"fmt"
 	"sync/atomic"
@@ -249,6 +250,74 @@ func init() {
 				}
 				time.Sleep(5 * time.Millisecond)
 				w.probe(n, "stream-vs-writers", info)
+				w.Close()
+			}
+		}
+
+		// balance / history readers (ancestor walks) against writers: every reader and writer call must return
+		{
+			rounds := 3
+			if c.Tier == "thorough" {
+				rounds = 15
+			}
+			for round := 0; round < rounds; round++ {
+				w, n := buildChain(c, 60, spice.Melange{Currency: 100})
+				info := map[string]interface{}{"section": "wedge", "op": "readers-vs-writers", "round": round}
+				c.Mark(info)
+				stop := make(chan struct{})
+				var wrote, read atomic.Int64
+				var wg sync.WaitGroup
+				for k := 0; k < 2; k++ {
+					wg.Add(1)
+					go func(k int) {
+						defer wg.Done()
+						for {
+							select {
+							case <-stop:
+								return
+							default:
+							}
+							t := w.NewTrx(w.wallets[1], w.wallets[0].Address(), spice.Melange{}, []byte{byte(k), 'w'})
+							n.ab.CreateLeaf(context.Background(), &t)
+							wrote.Add(1)
+						}
+					}(k)
+				}
+				for k := 0; k < 4; k++ {
+					wg.Add(1)
+					go func(k int) {
+						defer wg.Done()
+						for {
+							select {
+							case <-stop:
+								return
+							default:
+							}
+							if k%2 == 0 {
+								n.ab.CalculateBalance(context.Background(), w.wallets[k/2].Address())
+							} else {
+								n.ab.ReadDAGTransactionsByAddress(context.Background(), w.wallets[k/2].Address())
+							}
+							read.Add(1)
+						}
+					}(k)
+				}
+				dur := 700 * time.Millisecond
+				r := withDeadline(dur+15*time.Second, func() {
+					time.Sleep(dur)
+					close(stop)
+					wg.Wait()
+				})
+				c.Rep.Evals++
+				c.Count("readers-vs-writers." + r[:2])
+				c.Distinct(fmt.Sprint("readers-vs-writers", round))
+				c.Rep.Extra["readers_vs_writers_reads"] = read.Load()
+				c.Rep.Extra["readers_vs_writers_writes"] = wrote.Load()
+				if r != "ok" {
+					c.Violate("C08", "readers-deadlock-with-writers", fmt.Sprintf("balance / history reads concurrent with proposals (%d reads, %d writes done): some call never returned: %s", read.Load(), wrote.Load(), r), info)
+					return nil // the node is wedged: nothing more can be learnt from this process
+				}
+				w.probe(n, "readers-vs-writers", info)
 				w.Close()
 			}
 		}
